@@ -24,7 +24,8 @@ META = {
     "bounds": {"corners": "unit cube, two corners with symbolic jitter |d| <= 0.1", "curve points": "2 interior points, "
                "symbolic offsets |d| <= 0.1", "slots": "all 12 (fork on value)", "face manipulations": "none, invert, shift 1..3",
                "angle edges": "pinned sector angle (half-angle cos/sin 4/5,3/5), axis perpendicular to the edge"},
-    "outside": ["curve-snapped edges on spline/analytic curves (closest-parameter search is a numerical minimiser)",
+    "outside": ["curve-snapped edges on spline/analytic curves (closest-parameter search is a numerical minimiser); edges snapped "
+                "to a discrete curve are inside: the curve runs with or against the edge (solver's choice)",
                 "more than 2 interior points"],
     "assumptions": ["the vertices and edges sections are taken from the real VertexList/EdgeList writers after the real Mesh.assemble; Mesh.write (grading + concatenation) is covered by C06"],
     "must_reach": ["written"],
@@ -106,6 +107,13 @@ def _make_data(sx, kind, a, b, tag="c"):
         return cb.Arc(mid), mid
     if kind == "project":
         return cb.Project("geo"), None
+    if kind == "oncurve":
+        # an edge snapped to a curve through a, two interior points and b; the curve is parametrised from a to b or (solver's
+        # choice) from b to a, i.e. against the direction of the edge
+        pts = _curve_points(sx, a, b, tag)
+        cpts = [a, *pts, b]
+        against = sx.choice("against", 2)
+        return cb.OnCurve(cb.DiscreteCurve(cpts[::-1] if against else cpts)), pts
     raise KeyError(kind)
 
 
@@ -154,7 +162,7 @@ def _build(sx, kind, slot, manip, jitter=(2, 5)):
 
 def _check_entry(sx, parsed, mesh, kind, want, tag, manip="none"):
     a, b, intent = want
-    entries = [e for e in parsed["edges"] if e["kind"] == {"polyLine": "polyLine"}.get(kind, kind)]
+    entries = [e for e in parsed["edges"] if e["kind"] == {"polyLine": "polyLine", "oncurve": "spline"}.get(kind, kind)]
     sx.prove(len(parsed["edges"]) == 1 and len(entries) == 1, f"{tag}: exactly one edge entry of the given kind is written",
              f"C07:{kind}:entry-count", info={"written": [(e["kind"], e["v1"], e["v2"]) for e in parsed["edges"]]})
     if len(entries) != 1:
@@ -165,7 +173,7 @@ def _check_entry(sx, parsed, mesh, kind, want, tag, manip="none"):
     bwd = sx.all([_close_pts(sx, v1, b), _close_pts(sx, v2, a)])
     sx.prove(sx.any([fwd, bwd]), f"{tag}: the entry joins the two vertices of the edge the user addressed",
              f"C07:{kind}:on-edge")
-    if kind in ("spline", "polyLine"):
+    if kind in ("spline", "polyLine", "oncurve"):
         U = [a, *intent, b]
         W = [np.array(v1, dtype=object if sx.sym else float), *[np.array(p, dtype=object if sx.sym else float) for p in e["data"]],
              np.array(v2, dtype=object if sx.sym else float)]
@@ -193,7 +201,7 @@ def run_slot(sx, kind, manip):
     slot = sx.choice("slot", 12)
     if slot >= 8 and manip != "none":
         return "skip"
-    loft, P, want = _build(sx, kind, slot, manip, jitter=() if kind == "arc" else (2, 5))
+    loft, P, want = _build(sx, kind, slot, manip, jitter=() if kind in ("arc", "oncurve") else (2, 5))
     mesh = cb.Mesh()
     mesh.add(loft)
     if kind == "project":
@@ -373,7 +381,7 @@ def jobs(tier, seed):
                    "timeout_ms": 20000 if tier == "quick" else 90000})
 
     manips = ["none", "invert", "shift1"] if tier == "quick" else ["none", "invert", "shift1", "shift2", "shift3"]
-    for kind in ("spline", "polyLine", "arc", "project"):
+    for kind in ("spline", "polyLine", "arc", "project", "oncurve"):
         for m in (manips if kind in ("spline", "arc") or tier == "thorough" else ["none"]):
             add("run_slot", f"{kind}|{m}", kind=kind, manip=m)
     for g in range(3):
